@@ -293,7 +293,7 @@ Qed.
 Lemma phi_upd f s' w' l' :
   input s' = input (f_s f) -> pos s' = pos (f_s f) ->
   phi (upd f s' w' l') =
-  110 * (slen (f_s f) - pos (f_s f)) + b2z (f_more f) + 100 * wlen w' + 8 * (6 - l') + rank_sum w'.
+  120 * (slen (f_s f) - pos (f_s f)) + b2z (f_more f) + 100 * wlen w' + 2 * (6 - l') + rank_sum w'.
 Proof. intros E1 E2. unfold phi, upd, slen. cbn [f_s f_win f_left f_more]. rewrite E1, E2. reflexivity. Qed.
 
 (* a rule that shortens the window always decreases the potential *)
@@ -307,7 +307,10 @@ Proof.
 Qed.
 
 Ltac clear_bool := repeat match goal with H : @eq bool _ _ |- _ => clear H end.
-Ltac wside := clear_bool; wlens; lia.
+Ltac wside :=
+  clear_bool;
+  repeat match goal with |- context [if (?a <? ?b) then _ else _] => destruct (Z.ltb_spec a b) end;
+  wlens; lia.
 
 Ltac rstep :=
   lazymatch goal with
@@ -359,6 +362,84 @@ Proof.
                 match goal with H : t_cat x = _ |- _ => rewrite H end
             end;
             unfold set_cat; cbn [t_cat];
-            change (rank cF) with 3; change (rank b_sqli_token_type_bare_word) with 5).
+            change (rank cF) with 12; change (rank b_sqli_token_type_bare_word) with 13).
   all: wlens; clear_bool; lia.
 Qed.
+
+(* the fall-through of the two-token switch: fetch a third token, then the three-token rules *)
+Lemma three_spec inp fl f0 :
+  finv inp fl f0 -> 2 <= wlen (f_win f0) - f_left f0 ->
+  wp (f <- fetch_n 3 f0 ;;
+      if wlen (f_win f) - f_left f <? 3
+      then Ok (Continue (mkF (f_s f) (f_win f) (wlen (f_win f)) (f_more f) (f_last f)))
+      else rules3 f)
+     (step_ok inp fl (phi f0)).
+Proof.
+  intros Hinv H2. apply wp_bind. unfold fetch_n.
+  eapply wp_conseq.
+  { apply (fetch_spec inp fl 3); [exact Hinv|].
+    destruct Hinv as (_ & _ & W & _). unfold st_wf, slen, len in *. lia. }
+  intros f (P1 & P2 & P3 & P4 & P5 & P6 & P7).
+  destruct (wlen (f_win f) - f_left f <? 3) eqn:E.
+  - apply wp_Ok. unfold step_ok. pose proof P1 as (I1 & I2 & I3 & I4 & I5 & I6 & I7 & I8). split.
+    + unfold finv, mark in *. cbn [f_s f_win f_left f_last]. splits; try assumption; try lia.
+    + unfold phi in *. cbn [f_s f_win f_left f_more]. lia.
+  - eapply wp_conseq; [apply rules3_spec; [exact P1|lia]|].
+    intros [f'|n f']; unfold step_ok; intros [A B]; split; try assumption; lia.
+Qed.
+
+Ltac val_side :=
+  match goal with
+  | Hb : wtok _ ?t |- _ <= _ < len (t_val ?t) =>
+      let L := fresh in let R := fresh in let F := fresh in
+      destruct Hb as (L & R & _ & _ & F & _); cats; rewrite L;
+      try (specialize (F ltac:(assumption))); clear_bool; lia
+  end.
+
+Ltac rstep2 inp fl :=
+  lazymatch goal with
+  | |- wp (bind (fetch_n 3 ?f0) _) _ =>
+      eapply wp_conseq; [ apply (three_spec inp fl f0) | ]
+  | |- wp (bind (merge ?a ?b) _) _ =>
+      apply wp_bind; eapply wp_conseq; [ eapply merge_spec; eassumption | ];
+      let m := fresh "m" in let Hm := fresh "Hm" in intros m Hm; destruct m
+  | |- wp (get _ (t_val _) _) _ => apply wp_get; [ val_side | intros ? ? ]
+  | _ => rstep
+  end.
+
+(* a guarded boolean computation `if g then m else Ok false`: all the proof keeps is
+   that a true answer implies the guard (and a fact P about the body) *)
+Lemma wp_guarded (g : bool) (m : res bool) (P : Prop) :
+  (g = true -> wp m (fun r => r = true -> P)) ->
+  wp (if g then m else Ok false) (fun r => r = true -> g = true /\ P).
+Proof.
+  destruct g; intros H.
+  - eapply wp_conseq; [apply H; reflexivity|]. intros r Hr E. split; [reflexivity|apply Hr; exact E].
+  - cbn. discriminate.
+Qed.
+
+Ltac guarded tac :=
+  apply wp_bind; eapply wp_conseq;
+  [ apply wp_guarded; let G := fresh "G" in intros G; tac
+  | let x := fresh "x" in let Hx := fresh "Hx" in intros x Hx; destruct x;
+    [ destruct (Hx eq_refl) as [?G ?P]; clear Hx | clear Hx ] ].
+
+Ltac unary_total t :=
+  let u := fresh "u" in let E := fresh "Eu" in
+  destruct (is_unary_op_total t) as [u E];
+  [ match goal with H : wtok _ t |- _ => exact (proj1 H) end | rewrite E; cbn [bind wp]; try (intros; exact I) ].
+
+Lemma rules2_spec inp fl f :
+  finv inp fl f -> 2 <= wlen (f_win f) - f_left f ->
+  wp (rules2 (fetch_n 3) f) (step_ok inp fl (phi f)).
+Proof.
+  intros Hinv H2. pose proof Hinv as (I1 & I2 & I3 & I4 & I5 & I6 & I7 & I8).
+  unfold rules2.
+  apply wp_bind. eapply wp_wget; [exact I4|lia|]. intros a Ha Na.
+  apply wp_bind. eapply wp_wget; [exact I4|lia|]. intros b Hb Nb.
+  cbv zeta.
+  rstep; [repeat rstep; shrink_leaf|]. rstep; [repeat rstep; shrink_leaf|].
+  guarded ltac:(unary_total b); [repeat rstep; shrink_leaf|].
+  guarded ltac:(unary_total b); [repeat rstep; shrink_leaf|].
+  (*HERE*)
+Abort.
